@@ -594,7 +594,9 @@ class SecopClient(ProxyClient):
         self.disconnect_time = time.time()
         try:  # make sure txq does not block
             while not self.txq.empty():
-                self.txq.get(False)
+                entry = self.txq.get(False)
+                if entry:
+                    entry[1].set()  # release the caller waiting for a reply
         except Exception:
             pass
         # the rx and tx threads clear self._rxthread / self._txthread / self.io
@@ -615,18 +617,26 @@ class SecopClient(ProxyClient):
             io.disconnect()
         self.io = None
         # abort pending requests early
-        try:  # avoid race condition
-            while self.active_requests:
-                _, (_, event, _) = self.active_requests.popitem()
-                event.set()
-        except KeyError:
-            pass
-        try:
-            while True:
-                _, event, _ = self.pending.get(block=False)
-                event.set()
-        except queue.Empty:
-            pass
+        with self._request_lock:
+            try:  # avoid race condition
+                while self.active_requests:
+                    _, (_, event, _) = self.active_requests.popitem()
+                    event.set()
+            except KeyError:
+                pass
+            try:
+                while True:
+                    _, event, _ = self.pending.get(block=False)
+                    event.set()
+            except queue.Empty:
+                pass
+            try:  # requests queued while disconnecting
+                while True:
+                    entry = self.txq.get(block=False)
+                    if entry:
+                        entry[1].set()
+            except queue.Empty:
+                pass
 
     def _init_descriptive_data(self, data):
         """rebuild descriptive data"""
@@ -699,6 +709,9 @@ class SecopClient(ProxyClient):
         # the last item is for the reply
         entry = [request, Event(), None]
         self.txq.put(entry, timeout=3)
+        if not self._running:
+            # disconnected meanwhile: the tx thread might be gone already
+            entry[1].set()
         return entry
 
     def get_reply(self, entry):
